@@ -75,9 +75,13 @@ CHECKS["C06"] = {
 }
 
 CHECKS["C07"] = {
-    "text": "Partial by nature (DESIGN.md section 8). Proved: the EXPRESSION layer of the translator model (typedexpr.rs walk_expr + every tir/builder.rs visitor it "
-            "reaches) never panics, for every expression, class environment and builder state with an open current block -- the region invariant of the block "
-            "numbering, by induction over expressions through the builder's state monad (C07_expressions_never_panic); the constant interpreter terminates on every code body (C07_interp_total); the other modelled "
+    "text": "Partial by nature (DESIGN.md section 8). Proved: the translator model (typedexpr.rs walk / walk_callback / walk_stmt / walk_expr driving every "
+            "tir/builder.rs visitor) NEVER PANICS: for every class environment and every binding or handler -- any nesting of ?:, &&, ||, calls, casts, blocks, "
+            "declarations, if / else, switch with multi-block case labels, default anywhere, fall-through, break and return -- no assert, index or unwrap of "
+            "those files fires (C07_translator_never_panics, from C07_expressions_never_panic and C07_statements_never_panic: the region invariant of the "
+            "positional block numbering, by induction over programs through the builder's state monad; the only hypothesis is that a default clause sits at "
+            "a position the parser can produce). The model is tied to the code by this check's Ok / Err / Panic prediction on generated programs. Also "
+            "proved: the constant interpreter terminates on every code body (C07_interp_total); the other modelled "
             "passes carry their own totality theorems (C17_terminates, C12_grid/C12_box: no negative index, C10_unique: the name search always succeeds). "
             "Checked against the code on every run: the model's Ok / Err / Panic prediction for tir::build* equals the implementation's on generated programs "
             "and single-edit mutants (so a new panic in the expression layer breaks the correspondence with the program as the replay). Searched, not proved: "
